@@ -124,6 +124,17 @@ func (tl *store) applyFrom(tx stoabs.WriteTx, base *event, applyList []event) er
 			// it was already conflicted
 			conflicted = true
 		}
+	} else if len(applyList) > 0 {
+		// the new event precedes all known events, the DID can be conflicted already by the events that follow
+		d, err := readDocumentFromEvent(tx, applyList[0])
+		if err != nil {
+			return fmt.Errorf("read document failed: %w", err)
+		}
+		b, err := conflictedWriter.Get(stoabs.BytesKey(d.ID.String()))
+		if err != nil && !errors.Is(err, stoabs.ErrKeyNotFound) {
+			return err
+		}
+		conflicted = len(b) > 0
 	}
 
 	for _, nextEvent := range applyList {
